@@ -5634,9 +5634,9 @@ type getThisDynamic struct{}
 func (getThisDynamic) exec(vm *vm) {
 	for stash := vm.stash; stash != nil; stash = stash.outer {
 		if stash.obj == nil {
-			if v, exists := stash.getByName(thisBindingName); exists {
-				vm.push(v)
-				vm.pc++
+			if idx, exists := stash.names[thisBindingName]; exists {
+				// (an uninitialised this -- a derived constructor before super() returned -- is a ReferenceError)
+				vm.loadThis(stash.values[idx&^maskTyp])
 				return
 			}
 		}
